@@ -19,7 +19,7 @@ Lemma calls_register_conditional_shutdown_ok : calls_register_conditional_shutdo
 Proof. reflexivity. Qed.
 
 Lemma calls_register_conditional_default_ok : calls_register_conditional_default =
-  ["low_level::signal_name"; ".ok_or_else"; "Error::from_raw_os_error"; ".load"; "low_level::emulate_default_handler"; "low_level::register"].
+  ["low_level::signal_name"; ".ok_or_else"; "Error::from_raw_os_error"; "?"; ".load"; "low_level::emulate_default_handler"; "low_level::register"].
 Proof. reflexivity. Qed.
 
 Lemma calls_ll_exit_ok : calls_ll_exit =
